@@ -1,9 +1,10 @@
-From Plotink Require Import Base.Prelude Spec.Firmware Spec.LmSpec Spec.LmCheck Model.LmModel.
+From Plotink Require Import Base.Prelude Base.Rnd Spec.Firmware Spec.LmSpec Spec.LmCheck Model.LmModel Model.LmModelFull.
 Open Scope Z_scope.
 (* entry 0 = ebb_calc.calculate_lm, 1 = ebb_motion.moveTimeLM (duration only, accumulator "clear", argument order rate, steps, accel) *)
 Inductive case03 := K03 (entry : Z) (steps rate accel : Z) (accum : option Z) (iT ip ic : Z).
 (* bit 0: the implementation's output differs from the exact model of calculate_lm (Model/LmModel.v, proved correct on the domain:
-   Props/C03.v, C03_model_correct); bit 1: the output is rejected by the proved checker (translation validation of the output,
+   Props/C03.v, C03_model_correct) or from the fully rounded model (Model/LmModelFull.v: every mpmath operation in source order, executed
+   with round-to-nearest-even at 103 bits and the executable square root; equal to the exact model on the domain by C03_full_rounding_rne); bit 1: the output is rejected by the proved checker (translation validation of the output,
    independent of the model); the duration of the unique answer, for moveTimeLM, is recovered by checking the reported duration
    with the position and accumulator the closed form gives at that duration *)
 Definition check03 (c : case03) : Z :=
@@ -16,7 +17,8 @@ Definition check03 (c : case03) : Z :=
              | Some (budget, r0, a, acc) => lm_check steps rate accel None iT (cpos r0 a acc iT) (ctotal r0 a acc iT mod B31)
              end in
       let '(mT, mp, mc) := lm_model steps rate accel (if e =? 0 then accum else None) in
-      let same := if e =? 0 then (mT =? iT) && (mp =? ip) && (mc =? ic) else (mT =? iT) in
+      let '(fT, fp, fc) := lm_model_full_r (round_ne 103) (sqrt_ne 110 103) steps rate accel (if e =? 0 then accum else None) in
+      let same := if e =? 0 then (mT =? iT) && (mp =? ip) && (mc =? ic) && (fT =? iT) && (fp =? ip) && (fc =? ic) else (mT =? iT) && (fT =? iT) in
       code_of (negb same) (negb ok)
   end.
 Definition run03 (cs : list case03) := report (map check03 cs).
